@@ -355,6 +355,13 @@ def mutate_str(s, rng, budget):
     for i in (range(1, n) if n <= 60 else sorted(rng.sample(range(1, n), 60))):
         out.append(s[i:])            # every front deletion
     alph = "".join(sorted(set(s))) or "a"
+    if n:
+        # deterministic extensions (every run): the string pasted twice / three times, extended by 1, 8, 25, 40, 64,
+        # 100 and 300 of its own last symbol, of its most frequent symbol and of a neutral one, prefix kept
+        common = max(set(s), key=s.count)
+        out += [s + s, s + s[2:], s * 3, s[:2] + s]
+        for k in (1, 8, 25, 40, 64, 100, 300):
+            out += [s + s[-1] * k, s + common * k, s + rng.choice(alph) * k]
     for _ in range(budget):
         k = rng.randrange(8)
         i = rng.randrange(n) if n else 0
